@@ -71,7 +71,11 @@ Do(r) ==
        [] IsSetup(r) -> st' = "ready" /\ tr' = SetupTr(r) /\ sdp' = sdp
        [] r = "PLAY" -> st' = "playing" /\ UNCHANGED <<sdp, tr>>
        [] r = "RECORD" -> st' = "recording" /\ UNCHANGED <<sdp, tr>>
-  /\ dirty' = (IF e = "refuse" /\ IsSetup(r) /\ sdp # "none" THEN r ELSE dirty)   \* remembers WHICH set-up was refused last
+  \* remembers WHICH request was refused last: a refused SETUP may leave a transport behind, and a refused DESCRIBE /
+  \* ANNOUNCE of another path may change the path the session remembers (the statement says the connection stays
+  \* usable and that a 455 changes nothing; it does not say a 404 / 400 leaves the remembered description alone)
+  /\ dirty' = (IF e = "refuse" /\ ((IsSetup(r) /\ sdp # "none") \/ (r \in {"DESCRIBE_missing", "ANNOUNCE_badsdp", "ANNOUNCE_noctype"} /\ sdp # "none"))
+               THEN r ELSE dirty)
   /\ hist' = Append(hist, [req |-> r, exp |-> e,
                            frames |-> (st' = "playing" /\ tr' = "tcp"),      \* interleaved media allowed after this answer
                            published |-> (st' = "recording"),                 \* the announced path resolves to a stream
